@@ -633,7 +633,8 @@ def builtinMethod (n : Nat) (a : Addr) (name : String) (vals : List Addr) : M ν
       | _ => goPanic
     | "合并" => do
       validateAll vals "array"
-      let extra ← vals.mapM fun v => do match ← getCell v with | .arr xs => pure xs | _ => goPanic
+      -- the merged items are stored as copies (DuplicateValue), like 后增 / 前增 / 新增
+      let extra ← vals.mapM fun v => do match ← getCell v with | .arr xs => xs.mapM (dup n) | _ => goPanic
       let result := items ++ extra.flatten
       setCell a (.arr result)
       alloc (.arr result)
